@@ -276,7 +276,7 @@ fn judge(o: &mut Outcome, h: &Hist, r: &HistOut) {
         o.class("keyspace-given-to-session-builder");
     }
     for v in r.log.violations() {
-        o.violation("c20:protocol-violation-seen-by-node", v, replay.clone());
+        o.node_violation("c20", &v, replay.clone());
     }
     o.evals(checked);
     o.note_add("requests_checked", checked);
